@@ -44,6 +44,7 @@ class Graph:
         self.ref_order = {}  # rank-0 contig -> [node ids in coordinate order]
         self.header = None
         self.extra_lines = []
+        self.contig_named_like_segment = None
 
     # ---- construction -------------------------------------------------------------------
     def add_node(self, id, contig, so, seq, rank):
@@ -59,6 +60,13 @@ class Graph:
         if tags is None:
             tags = [f"SR:i:{rank}", f"L1:i:{self.nodes[a].ln}", f"L2:i:{self.nodes[b].ln}"]
         self.links.append([a, oa, b, ob, ov, tags])
+
+    def rename_contig(self, old, new):
+        self.contigs = {(new if k == old else k): v for k, v in self.contigs.items()}
+        for n in self.nodes.values():
+            if n.contig == old:
+                n.contig = new
+        self.ref_order = {(new if k == old else k): v for k, v in self.ref_order.items()}
 
     # ---- ground truth -------------------------------------------------------------------
     def step_pairs(self):
@@ -289,6 +297,14 @@ def gen_rgfa(rng, size="small", id_style=None, wild=True, n_ref=None, min_seg=1,
     if dup_decl and g.links and rng.random() < 0.2:
         a, oa, b, ob, ov, tags = rng.choice(g.links)
         g.links.append([b, FLIP[ob], a, FLIP[oa], ov, list(tags)])  # same link declared from the other end
+    if rng.random() < 0.06 and g.nodes:
+        # segment ids and contig names are separate name spaces: a contig may be called like a segment
+        # (numeric ids with Ensembl-style chromosome names "1", "2", ...)
+        old = rng.choice(list(g.contigs))
+        new = rng.choice(list(g.nodes))
+        if new not in g.contigs:
+            g.rename_contig(old, new)
+            g.contig_named_like_segment = new
     return g
 
 
@@ -335,7 +351,7 @@ def spell_walk(g, walk):
     return "".join(g.nodes[n].seq if o == ">" else revcomp(g.nodes[n].seq) for n, o in walk)
 
 
-def stretch(g, rng, factor):
+def stretch(g, rng, factor, seq=True):
     """Make every segment `factor` times longer (new random bases), keeping the contig structure:
     rank-0 contigs stay tiled, haplotype segments keep their separated / adjacent relation."""
     by_contig = {}
@@ -350,7 +366,7 @@ def stretch(g, rng, factor):
                 pos += (n.so - prev_end_old)  # keep a gap
             prev_end_old = n.end
             ln = n.ln * factor
-            n.seq = rand_seq(rng, ln)
+            n.seq = rand_seq(rng, ln) if seq else ""  # seq=False: lengths only (write the file with with_seq=False)
             n.so = pos
             n.ln = ln
             pos += ln
